@@ -266,22 +266,35 @@ def r3(ck, prog, run):
             found = f"guard `{norm(test)}`; dominates returns: {ok}"
     ck.same("R3", gi.where, "if not np.all(check): raise ValueError", "a time outside every validity interval raises ValueError before any index or offset is returned",
             ok, found=found, nontrivial=True)
-    # the check is closed-interval membership over self.intervals, OR-reduced
-    src = norm(gi.node)
-    gens = [g for g in ast.walk(gi.node) if isinstance(g, ast.GeneratorExp)]
-    okc = False
-    for g in gens:
-        if len(g.generators) == 1 and norm(g.generators[0].iter) == "self.intervals" and isinstance(g.elt, ast.BinOp) and isinstance(g.elt.op, ast.BitAnd):
-            l, r = g.elt.left, g.elt.right
-            names = [norm(x) for x in (g.generators[0].target.elts if isinstance(g.generators[0].target, ast.Tuple) else [])]
-            if len(names) == 2 and isinstance(l, ast.Compare) and isinstance(r, ast.Compare):
-                t1 = norm(l).replace(" ", "")
-                t2 = norm(r).replace(" ", "")
-                okc = {t1, t2} == {f"{names[0]}<=times", f"times<={names[1]}"} or {t1, t2} == {f"times>={names[0]}", f"times<={names[1]}"}
-    red = "functools.reduce(operator.or_, check)" in src or "reduce(operator.or_" in src
-    ck.same("R3", gi.where, "check = ((a <= times) & (times <= b) for a, b in self.intervals), OR-reduced",
-            "membership is tested against the closed validity intervals, any one of them sufficing", okc and red, found=f"closed-interval form: {okc}, or-reduction: {red}",
-            nontrivial=True)
+    # the check is closed-interval membership over self.intervals, any interval sufficing: evaluated on a predictor model
+    from ..values import PyFuncV, CondV
+    from ..boolterms import bool_equal
+    A0, B0, A1, B1, tt, TM, SP = (sp.Symbol(n_, real=True) for n_ in ("A0", "B0", "A1", "B1", "t", "TMID", "SPAN"))
+    tim = lambda e: Num(e / Hz, kind="time")  # noqa: E731
+    e_idx = sp.Symbol("e_idx", integer=True, nonnegative=True)
+    tmid_col = Num(sp.Function("TmidOf")(e_idx) / Hz, kind="time", shape=(sp.Symbol("E", integer=True, positive=True),), axes=(e_idx,))
+    cols = {"tmid": tmid_col, "span": Num(SP / Hz, kind="quantity")}
+    pred = ObjV(prog.cls("PhasePredictor"), {"intervals": TupleV([TupleV([tim(A0), tim(B0)]), TupleV([tim(A1), tim(B1)])])})
+    pred.attrs["__getitem__"] = PyFuncV(lambda ev_, a, k, fr_, nd: cols[a[0].s], "column")
+    ev = Evaluator(prog)
+    res = ck.attempt("R3", gi.where, "_get_index_and_dt(t) on a predictor with two validity intervals", "evaluates",
+                     lambda: ev.call(gi, [tim(tt)], {}, self_val=pred), ev=ev, allowed_guards=["ValueError"])
+    if res is not None:
+        facts = [f for f in ev.last_frame.facts]
+        have = sp.And(*facts) if facts else sp.true
+        want = sp.Or(sp.And(sp.Le(A0 / Hz, tt / Hz), sp.Le(tt / Hz, B0 / Hz)), sp.And(sp.Le(A1 / Hz, tt / Hz), sp.Le(tt / Hz, B1 / Hz)))
+        from .c01 import _norm_bool
+        eqv, wit = bool_equal(_norm_bool(have), _norm_bool(want))
+        run.ob("R3", gi.where, "acceptance condition of _get_index_and_dt", "a time is accepted exactly when it lies in one of the closed validity intervals (a <= t <= b for some interval)",
+               eqv, found=str(have)[:300], expected=str(want)[:300], witness=wit, nontrivial=True, note="decided by exhaustive truth table over the comparison atoms")
+        guards = [g for g in ev.guard_log if g[0].endswith("_get_index_and_dt")]
+        ck.same("R3", gi.where, "rejection exception", "times outside every interval raise ValueError", [g[2] for g in guards] == ["ValueError"], found=str([g[1:3] for g in guards]))
+        if isinstance(res, TupleV) and len(res.items) == 2 and isinstance(res.items[1], Num):
+            idx, dtv = res.items
+            ck.eq("R3", gi.where, "dt returned by _get_index_and_dt", "seconds since the TMID of the selected entry", dtv.expr,
+                  tt - sp.Function("TmidOf")(idx.expr) if isinstance(idx, Num) else sp.Symbol("none"))
+        else:
+            ck.unk("R3", gi.where, "_get_index_and_dt result", "(index, dt)", repr(res)[:120])
     # dominance of the range check over polynomial evaluation
     for qn in ("PhasePredictor.__call__", "PhasePredictor.f0", "PhasePredictor.phasepol"):
         fi = prog.func(qn)
